@@ -1127,12 +1127,21 @@ impl IdlArcSqliteWriteTransaction<'_> {
         Ok(())
     }
 
-    pub fn write_name2uuid_rem(&mut self, rem: BTreeSet<String>) -> Result<(), OperationError> {
-        rem.into_iter().for_each(|k| {
-            // why not just a for loop here...
-            let cache_key = NameCacheKey::Name2Uuid(k);
-            self.name_cache.remove_dirty(cache_key)
-        });
+    pub fn write_name2uuid_rem(
+        &mut self,
+        uuid: Uuid,
+        rem: BTreeSet<String>,
+    ) -> Result<(), OperationError> {
+        for k in rem {
+            // Only remove the name while it still maps to this entry. When several entries
+            // change in one transaction (a batch modify, a replication apply) another entry
+            // may already have taken over the name, and removing it here would leave that
+            // entry without its name mapping.
+            if self.name2uuid(k.as_str())? == Some(uuid) {
+                let cache_key = NameCacheKey::Name2Uuid(k);
+                self.name_cache.remove_dirty(cache_key)
+            }
+        }
         Ok(())
     }
 
@@ -1151,9 +1160,16 @@ impl IdlArcSqliteWriteTransaction<'_> {
         Ok(())
     }
 
-    pub fn write_externalid2uuid_rem(&mut self, rem: String) -> Result<(), OperationError> {
-        let cache_key = NameCacheKey::ExternalId2Uuid(rem);
-        self.name_cache.remove_dirty(cache_key);
+    pub fn write_externalid2uuid_rem(
+        &mut self,
+        uuid: Uuid,
+        rem: String,
+    ) -> Result<(), OperationError> {
+        // As with names, only remove the external id while it still maps to this entry.
+        if self.externalid2uuid(rem.as_str())? == Some(uuid) {
+            let cache_key = NameCacheKey::ExternalId2Uuid(rem);
+            self.name_cache.remove_dirty(cache_key);
+        }
         Ok(())
     }
 
